@@ -150,18 +150,26 @@ fn range(range: impl core::ops::RangeBounds<usize>, len: usize) -> (usize, usize
         Bound::Unbounded => len,
     };
 
-    assert!(
-        begin <= end,
-        "range start must not be greater than end: {:?} <= {:?}",
-        begin,
-        end,
-    );
-    assert!(
-        end <= len,
-        "range end out of bounds: {:?} <= {:?}",
-        end,
-        len,
-    );
+    #[cfg(kani)]
+    {
+        assert!(begin <= end, "range start must not be greater than end");
+        assert!(end <= len, "range end out of bounds");
+    }
+    #[cfg(not(kani))]
+    {
+        assert!(
+            begin <= end,
+            "range start must not be greater than end: {:?} <= {:?}",
+            begin,
+            end,
+        );
+        assert!(
+            end <= len,
+            "range end out of bounds: {:?} <= {:?}",
+            end,
+            len,
+        );
+    }
 
     (begin, end)
 }
@@ -203,6 +211,13 @@ impl From<TryGetError> for std::io::Error {
 
 /// Panic with a nice error message.
 #[cold]
+#[cfg(kani)]
+fn panic_advance(_error_info: &TryGetError) -> ! {
+    panic!("advance out of bounds");
+}
+
+#[cold]
+#[cfg(not(kani))]
 fn panic_advance(error_info: &TryGetError) -> ! {
     panic!(
         "advance out of bounds: the len is {} but advancing by {}",
@@ -211,6 +226,13 @@ fn panic_advance(error_info: &TryGetError) -> ! {
 }
 
 #[cold]
+#[cfg(kani)]
+fn panic_does_not_fit(_size: usize, _nbytes: usize) -> ! {
+    panic!("size too large");
+}
+
+#[cold]
+#[cfg(not(kani))]
 fn panic_does_not_fit(size: usize, nbytes: usize) -> ! {
     panic!(
         "size too large: the integer type can fit {} bytes, but nbytes is {}",
